@@ -6,13 +6,13 @@
     * `detail::cast_to_common_type<C>` and `detail::using_common_type` (quantity.hh:698-728),
     * the mixed-type `== != < <= > >=` and `+ -` templates (quantity.hh:730-764) followed by the
       same-type hidden friends (quantity.hh:286-301),
-    * `operator%` via `CommonUnitT` (quantity.hh:516-524),
-    * `operator<=>` via `CommonUnitT` (quantity.hh:834-840, C++20 only).
+    * `operator%` via `CommonUnitT` (quantity.hh:519-529),
+    * `operator<=>` via `CommonUnitT` (quantity.hh:838-846, C++20 only).
 
   `k1`, `k2` are the positive integers `unit_ratio(U_i, CommonUnitT<U1, U2>)` (`AuModel.CommonRat`).
-  NOTE (modelled as the code is): the six comparisons and `+`/`-` scale both operands in the *common
-  rep*; `%` and `<=>` scale each operand in its *own* rep (`q.in(U{})`) and only then apply the
-  built-in operator with the usual arithmetic conversions.
+  All operators scale both operands in the *common rep*: the six comparisons and `+`/`-` through
+  `using_common_type`; `%` and `<=>` through `rep_cast<R>(q).in(U{})` with `R = common_type_t<R1,R2>`
+  (since the `fix:` commit for finding F11/F17; before it they scaled each operand in its own rep).
 -/
 import AuModel.ApplyMag
 import AuModel.CommonRat
@@ -135,10 +135,9 @@ def commonCompiles (r1 r2 : IntTy) (k1 k2 : Nat) : Bool :=
   let c := IntTy.common r1 r2
   lookupOk r1 r2 k1 k2 && implicitOk c k1 && implicitOk c k2
 
-/-- Whether `q1 % q2` / `q1 <=> q2` compiles: the policy `static_assert` in `in(unit)` for each
-operand's *own* rep. -/
-def ownCompiles (r1 r2 : IntTy) (k1 k2 : Nat) : Bool :=
-  lookupOk r1 r2 k1 k2 && implicitOk r1 k1 && implicitOk r2 k2
+/-- Whether `q1 % q2` / `q1 <=> q2` compiles: the policy `static_assert` in `in(unit)`, evaluated (since the
+fix of F11/F17) on the *common* rep for both operands — the same gate as the other operators. -/
+def modCompiles (r1 r2 : IntTy) (k1 k2 : Nat) : Bool := commonCompiles r1 r2 k1 k2
 
 /-- The two arguments `using_common_type` hands to `f`. -/
 def commonPair (r1 r2 : IntTy) (k1 k2 : Nat) (v1 v2 : Int) : Res (Int × Int) :=
@@ -163,13 +162,14 @@ def sub (r1 r2 : IntTy) (k1 k2 : Nat) (v1 v2 : Int) : Res Int :=
     let s := subIn c.promote x y
     ⟨s.val, s.wrapped, false⟩
 
-/-- Both operands through `q.in(CommonUnitT<U1,U2>{})` in their own reps, converted to the type of
-the built-in binary operator (usual arithmetic conversions), then `f`. -/
-def usingOwn {α : Type} (r1 r2 : IntTy) (k1 k2 : Nat) (v1 v2 : Int)
+/-- Both operands through `rep_cast<R>(q).in(CommonUnitT<U1,U2>{})`, `R = common_type_t<R1, R2>`, then the
+built-in binary operator on two values of type `R` (integral promotion), then `f`. -/
+def usingRepCast {α : Type} (r1 r2 : IntTy) (k1 k2 : Nat) (v1 v2 : Int)
     (f : IntTy → Int → Int → Res α) : Res α :=
-  let p := IntTy.uac r1 r2
-  let a := inUnit r1 k1 v1
-  let b := inUnit r2 k2 v2
+  let c := IntTy.common r1 r2
+  let p := IntTy.uac c c
+  let a := andThen (repCast r1 c v1) fun x => inUnit c k1 x
+  let b := andThen (repCast r2 c v2) fun x => inUnit c k2 x
   match a.val, b.val with
   | .ok x, .ok y =>
     let r := f p (p.wrap x) (p.wrap y)
@@ -179,21 +179,21 @@ def usingOwn {α : Type} (r1 r2 : IntTy) (k1 k2 : Nat) (v1 v2 : Int)
   | _, .ub w => ⟨.ub w, a.wrapped || b.wrapped, a.narrowed || b.narrowed⟩
 
 /-- The two operands of the built-in operator in `%` / `<=>`. -/
-def ownPair (r1 r2 : IntTy) (k1 k2 : Nat) (v1 v2 : Int) : Res (Int × Int) :=
-  usingOwn r1 r2 k1 k2 v1 v2 fun _ x y => ⟨.ok (x, y), false, false⟩
+def repCastPair (r1 r2 : IntTy) (k1 k2 : Nat) (v1 v2 : Int) : Res (Int × Int) :=
+  usingRepCast r1 r2 k1 k2 v1 v2 fun _ x y => ⟨.ok (x, y), false, false⟩
 
-/-- Rep of `q1 % q2`: `decltype(R1{} % R2{})`. -/
-def modRep (r1 r2 : IntTy) : IntTy := IntTy.uac r1 r2
+/-- Rep of `q1 % q2`: `decltype(R{} % R{})`, `R = common_type_t<R1, R2>`. -/
+def modRep (r1 r2 : IntTy) : IntTy := IntTy.uac (IntTy.common r1 r2) (IntTy.common r1 r2)
 
-/-- `q1 % q2` = `make_quantity<U>(q1.in(U{}) % q2.in(U{}))`, `U = CommonUnitT<U1, U2>`. -/
+/-- `q1 % q2` = `make_quantity<U>(q1.as<R>(U1{}).in(U{}) % q2.as<R>(U2{}).in(U{}))`, `U = CommonUnitT<U1, U2>`. -/
 def mod (r1 r2 : IntTy) (k1 k2 : Nat) (v1 v2 : Int) : Res Int :=
-  usingOwn r1 r2 k1 k2 v1 v2 fun p x y =>
+  usingRepCast r1 r2 k1 k2 v1 v2 fun p x y =>
     let s := modIn p x y
     ⟨s.val, s.wrapped, false⟩
 
-/-- `q1 <=> q2` = `q1.in(U{}) <=> q2.in(U{})` (`std::strong_ordering` as `Ordering`). -/
+/-- `q1 <=> q2` = `rep_cast<R>(q1).in(U{}) <=> rep_cast<R>(q2).in(U{})` (`std::strong_ordering` as `Ordering`). -/
 def spaceship (r1 r2 : IntTy) (k1 k2 : Nat) (v1 v2 : Int) : Res Ordering :=
-  usingOwn r1 r2 k1 k2 v1 v2 fun _ x y => ⟨.ok (compare x y), false, false⟩
+  usingRepCast r1 r2 k1 k2 v1 v2 fun _ x y => ⟨.ok (compare x y), false, false⟩
 
 /-- What a comparison operator answers on a `strong_ordering` (`(q1 <=> q2) op 0`). -/
 def CmpOp.ofOrdering : CmpOp → Ordering → Bool
